@@ -223,6 +223,9 @@ func RandomTree(taxa []string, r Rnd, maxdeg int, withLen bool) *RNode {
 	mk := func(n *RNode) *RNode {
 		if withLen {
 			n.HasLen, n.Len = true, float64(r.Intn(33))/16
+			if r.Intn(6) == 0 {
+				n.Len = 0 // exact zeros are frequent enough for two of them to meet (both root branches, a whole path)
+			}
 		}
 		return n
 	}
